@@ -7,6 +7,7 @@ import (
 	"os"
 	"path/filepath"
 	"runtime/debug"
+	"strings"
 	"sync"
 	"sync/atomic"
 	"time"
@@ -30,6 +31,9 @@ type NodeConfig struct {
 	LbtcBalance    uint64
 	BtcFeePerKw    int64 // estimator answer (0 = fallback), <0 = estimator error
 	LbtcFee        uint64
+	// PremiumPPM, if set, holds default premium rates "btc/in", "btc/out", "lbtc/in", "lbtc/out" (ppm) that the
+	// operator configured (stored through the real premium.Setting at every start).
+	PremiumPPM map[string]int64
 }
 
 // DefaultNodeConfig is a permissive two-chain configuration.
@@ -186,6 +190,18 @@ func (n *Node) Start(opts ...StartOpts) error {
 		return err
 	}
 	inc.Premium = ps
+	for k, ppm := range n.Cfg.PremiumPPM {
+		asset, op := premium.BTC, premium.SwapIn
+		if strings.HasPrefix(k, "lbtc/") {
+			asset = premium.LBTC
+		}
+		if strings.HasSuffix(k, "/out") {
+			op = premium.SwapOut
+		}
+		if pr, err := premium.NewPremiumRate(asset, op, premium.NewPPM(ppm)); err == nil {
+			ps.SetDefaultRate(context.Background(), pr)
+		}
+	}
 	inc.Mgr = messages.NewManager()
 	inc.MgrWrap = &mgrWrap{inc: inc, real: inc.Mgr, live: map[string]int{}}
 	inc.BtcWat = newRefWatcher(inc, n.w.BTC, 3)
